@@ -65,7 +65,7 @@ class C06(Sim):
             "non-trivial = >= 2 meshes alive and >= 2 transform/edit calls")
     FAULT_KINDS = ["aliasing_schedule"]
     PROBES = ["merge_same_twice", "merge_result_edited", "copy_edited", "source_edited_after_copy", "open_ring", "boundary_producer",
-              "subdivision_producer", "int_coordinates", "inverse_pair", "flatten", "normalize", "load_producer", "inplace_edit", "copy_connectivity", "elem_edit", "cloud_in_merge"]
+              "subdivision_producer", "int_coordinates", "inverse_pair", "flatten", "normalize", "load_producer", "inplace_edit", "copy_connectivity", "elem_edit", "cloud_in_merge", "copy_of_warm_source"]
     QUICK_RUNS = 3000
     THOROUGH_RUNS = 300000
     BLOCK = 25
@@ -167,6 +167,7 @@ class C06(Sim):
         elif k == "copy":
             ev["src"] = r.choice(names)
             ev["flags"] = [r.chance(0.5), r.chance(0.3)]
+            ev["warm"] = r.chance(0.5)  # the source's lazy connectivity has been queried before the copy is taken
         elif k == "merge":
             n = r.randint(1, 3)
             src = [r.choice(names) for _ in range(n)]
@@ -212,7 +213,7 @@ class C06(Sim):
             fn = lambda: M.mesh.from_arrays(np.array(ev["points"], dtype=float), F=np.array(ev["faces"], dtype=int))
         elif k == "load_obj":
             from props.c02 import write_obj
-            path = "/sim/%s.obj" % ev["name"]
+            path = self.fs.root + "%s.obj" % ev["name"]
             self.fs.files[path] = write_obj({"points": ev["points"], "faces": ev["faces"], "edges": []}).encode()
             self.probes["load_producer"] += 1
             fn = lambda: M.mesh.load(path)
@@ -252,6 +253,10 @@ class C06(Sim):
             fn = lambda: P.vector_field(np.array(a, dtype=float), np.array(a[::-1], dtype=float), 0.5)
         elif k == "copy":
             src = self.pool[ev["src"]]
+            if ev.get("warm") and hasattr(src, "connectivity") and len(src.vertices):
+                call(lambda: (src.connectivity.vertex_to_vertices(0), src.connectivity.edge_id(0, 1),
+                              src.connectivity.vertex_to_corners(0) if hasattr(src, "faces") else None))
+                self.probes["copy_of_warm_source"] += 1
             fn = lambda: M.mesh.copy(src, copy_attributes=ev["flags"][0], copy_connectivity=ev["flags"][1])
         elif k == "merge":
             fn = lambda: M.mesh.merge([self.pool[s] for s in ev["src"]])
@@ -458,6 +463,15 @@ class C06(Sim):
                 for cn in ("vertices", "edges", "faces", "cells"):
                     if hasattr(mesh, cn) and any(x is y and isinstance(x, (list, np.ndarray)) for x, y in zip(getattr(mesh, cn), getattr(src_mesh, cn))):
                         shared.append(cn + "[i]")  # the same mutable element object sits in both meshes
+                if hasattr(mesh, "connectivity") and hasattr(src_mesh, "connectivity"):
+                    # the computed tables too: the same dict, or the same mutable ring / record inside two dicts, is shared mutable state
+                    for kname, tab in vars(src_mesh.connectivity).items():
+                        mine = vars(mesh.connectivity).get(kname)
+                        if isinstance(tab, dict) and isinstance(mine, dict):
+                            if tab is mine:
+                                shared.append("connectivity." + kname)
+                            elif any(isinstance(v, (list, set, dict, np.ndarray)) and mine.get(q) is v for q, v in tab.items()):
+                                shared.append("connectivity.%s[...]" % kname)
                 if shared:
                     self.violation("copy-shares-no-mutable-state", "copy", "state_corrupted", "shared:" + ",".join(shared),
                                    "flags=%r" % (ev["flags"],), "copy(%s, copy_attributes=%r, copy_connectivity=%r) shares %s with its source" % (ev["src"], ev["flags"][0], ev["flags"][1], shared))
